@@ -15,6 +15,8 @@ Every kind needs nothing from the surrounding program except that the names it m
 CATALOGUE = [
     ("undefined-symbol", ["{I}«mov #»nosuchsym, r0"], "undefined-symbol", "error", ("T",)),
     ("undefined-in-word", ["{I}«.word 5, »nosuchsym2"], "undefined-symbol", "error", ("T",)),
+    ("unused-undefined", ["«unusd1 = »nosuchsym5 + 1"], "undefined-symbol", "error", ("T",)),
+    ("unused-div-zero", ["«unusd2 = 100 / zer0", "zer0 = 0"], "arithmetic-error", "error", None),
     ("bad-octal", ["{I}«.word »19"], "invalid-number", "error", ("T",)),
     ("bad-octal-in-expr", ["{I}«mov #2 + »98, r1"], "invalid-number", "error", ("T",)),
     ("caret-x-without-digits", ["{I}«.word »^X"], "invalid-number", "critical", ("T",)),
